@@ -312,7 +312,7 @@ impl ParsedPacket {
             let uncompressed = Compress::uncompress(self.packet())?;
             self.packet = Some(uncompressed);
             self.recompute()?;
-            debug_assert!(!self.maybe_compressed);
+            self.maybe_compressed = false;
         }
         let rr_len = rr.packet.len();
         if self.packet().len() > DNS_MAX_UNCOMPRESSED_SIZE
@@ -387,7 +387,6 @@ impl ParsedPacket {
         assert_eq!(self.ext_rcode, parsed_packet.ext_rcode);
         assert_eq!(self.edns_version, parsed_packet.edns_version);
         assert_eq!(self.ext_flags, parsed_packet.ext_flags);
-        self.maybe_compressed = false;
         self.packet = Some(parsed_packet.into_packet());
         self.cached = None;
         Ok(())
